@@ -116,7 +116,8 @@ impl Out {
 			j.push_str(&format!("\n    \"{}\"", json_escape(s)));
 		}
 		j.push_str("\n  ],\n  \"failures\": [");
-		for (i, fl) in self.failures.iter().take(200).enumerate() {
+		let cap = std::env::var("XTVERIF_MAX_FAILURES").ok().and_then(|v| v.parse().ok()).unwrap_or(200usize);
+		for (i, fl) in self.failures.iter().take(cap).enumerate() {
 			if i > 0 {
 				j.push(',');
 			}
